@@ -92,25 +92,26 @@ pub fn run(ctx: &Ctx) -> i32 {
     let mut col = Collector::new(); let mut evals = 0u64; let mut buckets = std::collections::HashSet::new();
     for a in accs { col.merge(a.col); evals += a.evals; buckets.extend(a.buckets); }
     // ---------- message level: every family position x every letter
-    let mut mjobs: Vec<(Msg, usize, Option<char>)> = vec![];
+    let mut mjobs: Vec<(Msg, usize, Option<char>, usize)> = vec![]; // (base, position, letter, instance index of the written option)
     for mt in crate::common::reg::MT_CODES {
         let (msgs, _) = corpus(mt, 1, 3000);
         let Some(base) = msgs.into_iter().filter(|m| m.base == "max" && m.deviations == 0).find(|m| matches!(super::c03::eval(m), super::c03::Outcome::Ok)) else { continue };
         for (p, o) in base.occs.iter().enumerate() {
             let num = &o.tag[..2];
             if kinds_with_number(num).len() < 2 { continue; }
-            mjobs.push((base.clone(), p, None));
-            for l in 'A'..='Z' { mjobs.push((base.clone(), p, Some(l))); }
+            let n_inst = |w: &str| m1::kind(w).map(|k| (k.insts)().len()).unwrap_or(1);
+            for k in 0..n_inst(num) { mjobs.push((base.clone(), p, None, k)); }
+            for l in 'A'..='Z' { for k in 0..n_inst(&format!("{num}{l}")) { mjobs.push((base.clone(), p, Some(l), k)); } }
         }
     }
     let mn = mjobs.len();
     let maccs = par::par_for(mn, 64, mk, |i, a| {
-        let (base, p, letter) = &mjobs[i];
+        let (base, p, letter, inst_k) = &mjobs[i];
         let o = &base.occs[*p];
         let num = &o.tag[..2];
         let written = format!("{num}{}", letter.map(|c| c.to_string()).unwrap_or_default());
         // content: a typical instance of the written option if the model knows it, else the original content
-        let content = m1::kind(&written).map(|k| (k.insts)()[0].1.clone()).unwrap_or_else(|| o.content.clone());
+        let content = m1::kind(&written).map(|k| { let v = (k.insts)(); v[(*inst_k).min(v.len() - 1)].1.clone() }).unwrap_or_else(|| o.content.clone());
         let mut toks = base.toks(); toks[*p] = Tok { tag: written.clone(), content };
         let tags: Vec<String> = toks.iter().map(|t| t.tag.clone()).collect();
         let allowed = m2::accepts_tags(m2::layout(base.mt), &tags);
@@ -129,7 +130,7 @@ pub fn run(ctx: &Ctx) -> i32 {
                 Ok(Err(e)) => {
                     a.buckets.insert(format!("{}:{}:{}:rejected", base.mt, o.tag, if allowed { "allowed" } else { "foreign" }));
                     // an option the layout allows, written with a typical content of that option, must be parsed as that option
-                    if allowed && m1::kind(&written).is_some() { a.col.add(format!("C14/MT{}/allowed-option-rejected:{written}", base.mt), i as u64, || format!(":{written}: is an option of this position but the message is rejected: {e}"), case); }
+                    if allowed && m1::kind(&written).is_some() && own_parser_accepts(&written, &toks[*p].content) == Some(true) { a.col.add(format!("C14/MT{}/allowed-option-rejected:{written}", base.mt), i as u64, || format!(":{written}: is an option of this position but the message is rejected: {e}"), case); }
                 }
                 Err(_) => {}
             }
